@@ -107,7 +107,7 @@ for _lay, _bk in itertools.product(LAYOUTS, ('scalar', 'per_variable')):
         it.loop_specs[(f'{R}:minimize_oc', 0)] = LoopSpec('bisection', havoc, inv, executes_at_least_once=True, on_exit=on_exit)
         ctx.safety_on = False
         wx = it.watches.setdefault(f'{R}:minimize_oc', {})
-        wx['xval'] = []
+        wx['xval'] = V.GhostList('xval', 'minimize_oc')
         it.call(it.get_function(f'{R}:minimize_oc'), [net, list(sigs), obj], dict(maxit=1, tolx=0, tolf=0, xmin=xmin, xmax=xmax, move=move, l1init=l1i, l2init=l2i,
                                                                                l1l2tol=tol, maxvol=maxvol, verbosity=0))
         ran = [e for e in log if e[0] == 'sensitivity']
@@ -127,7 +127,7 @@ for _lay, _bk in itertools.product(LAYOUTS, ('scalar', 'per_variable')):
             xo = FX[k](t)
             xn = V.zreal(new.at(t))
             ctx.prove(f'writeback.length[{k}]', V.cmp('==', new.shape[0], lens[k]))
-            if 'XN_exit' in state and len(wx['xval']) >= 2:       # `xval = xnew` was executed: not the path that stops on the step-size criterion
+            if 'XN_exit' in state and wx['xval'].count() >= 2:       # `xval = xnew` was executed: not the path that stops on the step-size criterion
                 # exactly its own slice of the design the bisection ended with - also when several signals started from one shared array
                 ctx.prove(f'writeback.own_slice[{k}]', V.cmp('==', xn, state['XN_exit'](V.zint(j))))
             ctx.prove(f'within_bounds[{k}]', z3.And(xn >= V.zreal(LO(j)), xn <= V.zreal(HI(j))))
